@@ -31,6 +31,29 @@ def run(ctx, proof):
     cases = campaign.make_cases(ctx, COMPS, "sa", plan)
     mism = campaign.run_cases(ctx, cases, ORACLES)
     mism += campaign.run_histories(ctx, COMPS, "sa", hplan, ORACLES)
+    # beyond 8 players (dtype / table-size limits of the memoised structure): the soundness oracle on the implementation alone
+    import games
+    big = [(9, 2), (10, 1)] if ctx.quick else [(9, 10), (10, 4), (11, 1)]
+    for (n, cnt) in big:
+        for _ in range(cnt):
+            v, src = campaign.repo_generator_game(ctx.rng, n, campaign.SAM_GENS if ctx.rng.random() < 0.7 else campaign.SA_GENS)
+            K = games.random_knowledge(ctx.rng, n) if ctx.rng.random() < 0.5 else \
+                sorted(games.minimal_ids(n) + ctx.rng.sample(games.optional_ids(n), ctx.rng.randint(0, 12)))
+            for comp in (COMPS if n <= 9 else ["superadditive_cached"]):
+                st, tab = bl.impl_compute(comp, n, v, K)
+                ctx.evaluations += 1
+                ctx.count("n", n)
+                if st != "ok":
+                    ctx.violation(f"{comp} raised on a superadditive game with the minimal information known (n={n}, {src})",
+                                  {"comp": comp, "n": n, "generator": src, "K": K})
+                    continue
+                fails = bl.oracle_sound(n, v, K, tab, exact=False)
+                if fails:
+                    ctx.violation(f"C01 soundness oracle fails on the implementation at n={n} ({comp}, {src}): {fails[:3]}",
+                                  {"comp": comp, "n": n, "generator": src + " (GENERATORS[name](n, default_rng(seed)))", "K": K,
+                                   "failures": str(fails[:5])})
+                elif any((not k) and lo != hi for k, lo, hi in tab):
+                    ctx.nontrivial.add((comp, n, tuple(K), src))
     import coqshard
     coqshard.cross_check(ctx, cases, limit=8 if ctx.quick else 40)
     campaign.report_mismatches(ctx, mism, ORACLES, "compute_bounds (impl) = compute (Bounds.v model) on the same table")
